@@ -225,6 +225,22 @@ func runC03(r *Run) {
 	if rawMode {
 		ex = PredictLenient(stream, rc.PeerIsCli, rc.Neg.Deflate, rc.PeerTake)
 	}
+	if !limitOff {
+		// An injected frame can legally extend an open message beyond the read limit
+		// the messages were sized for (a continuation labelled "out of order" is in
+		// order while a message is open). The reference decoder has no read limit:
+		// such a run reads without one (the limit is C08's subject).
+		over := len(ex.OpenRaw) > 32000
+		for _, m := range ex.Msgs {
+			if len(m.Payload) > 32768 {
+				over = true
+			}
+		}
+		if over {
+			limitOff = true
+			rc.C.SetReadLimit(-1)
+		}
+	}
 
 	useCloseRead := t.Pct(10)
 	rapi := t.Draw(2)
